@@ -44,6 +44,8 @@ CLAIMS["C13"] = ("Every transaction the tool writes starts with the marker SET o
 
 CLAIMS["C18"] = ("The unit builder visits every command and key, hashes with the module's slot function, and on every path each failure edge (resolver error, unresolved, no keys, slot mismatch in strict mode) refuses; cluster mode uses the strict slot mode; key resolution keeps every key position; the slot tag derives from the recorded slot; control-key formats have exactly one hash tag around the slot tag and are built with the unit's tag; the cluster transaction batcher hashes every key, records every refusal and returns it before dispatch; a unit is emitted only on the builder's success edge; the builder refuses for the listed reasons only. The slot function itself is checked under C11.", "3/C18")
 
+CLAIMS["C06"] = ("Every successful path of the (re)connection decision procedure is enumerated with its flags pruned: PSYNC is asked from the cache's edge only when the target's position is a valid cache offset (or a complete cached snapshot exists and the target has none), from the target's position otherwise with the cache cleared on that path, or from the initial point; a full resync clears the cache first; reader start, writer offset and snapshot size returned are the defined ones for full and partial paths; cache and bookkeeping get the same id, forced to the current one on CONTINUE; the wire routine formats offset+1, reports sent-1 only under CONTINUE and the parsed offset under FULLRESYNC.", "3/C06")
+
 NOT_YET = "check not built yet in this revision (planned, see DESIGN.md section 3)"
 
 def main():
